@@ -13,6 +13,7 @@ def register(db):
     register_find_subclass(db)
     register_memo(db)
     register_find_types(db)
+    register_find_type(db)
     P = ["C14"]
     # ------------------------------------------------------------------ memoised wildcard matching
     M = "uf('match_ns', 'bool', self.namespaces, {q})"
@@ -259,7 +260,7 @@ def register_memo(db):
             params={"a": s1, "b": s2, **{n: srt for n, srt in sp["others"]}},
             requires=["a == b"],
             ensures=[("equal-keys-give-the-same-result", "result[0] == result[1]")],
-            raises={}, properties=["C14"],
+            raises={}, properties=["C14"], replay="replay_memo",
             note=f"memoised function {sp['function']}: parameter {sp['param']} admits {sp['types'][0]} and {sp['types'][1]}; "
                  f"equal values of the two types share one cache entry",
         ))
@@ -290,4 +291,27 @@ def register_find_types(db):
                  ("an-unknown-name-has-no-classes",
                   f"implies(not ({NATIVE}) and not uf('XsiCache.has', 'bool', self.xsi_cache, qname), len(result) == 0)")],
         raises={"XmlContextError": True, "NameError": True, "TypeError": True}, properties=["C14"],
+    ))
+
+
+def register_find_type(db):
+    """find_type: the LAST class of the index entry (the class imported last), None when the entry is empty - together
+    with find_subclass#read-only-lookup (which must not reorder that entry) this makes the answer a function of the
+    loaded classes."""
+    from pyvc.contracts import pure_result
+    from pyvc.values import Opaque
+    db.opaque_ops[("TypeList", "getitem")] = lambda ex, st, v, idx: iter([(st, Opaque("type", pure_result(ex, st, "TypeList.getitem", "u:type", [v, idx]).t))])
+
+    def context(mk, base):
+        return mk.obj(CTX, {"cache": "opaque:PyDict", "xsi_cache": "opaque:XsiCache", "sys_modules": "int",
+                            "class_type": "opaque:ClassType", "models_package": "str|None",
+                            "element_name_generator": "opaque:Any", "attribute_name_generator": "opaque:Any"})
+
+    T = "uf('XmlContext.find_types', 'u:TypeList', self.xsi_cache, qname)"
+    db.add(Contract(
+        f"{CTX}.find_type", params={"self": context, "qname": "str"},
+        ensures=[("the-last-class-of-the-entry", f"implies(uf('truthy_TypeList', 'bool', {T}), result is uf('TypeList.getitem', 'u:type', {T}, -1))"),
+                 ("none-for-an-empty-entry", f"implies(not uf('truthy_TypeList', 'bool', {T}), result is None)"),
+                 ("one-lookup", "called('XmlContext.find_types') == 1 and call_arg('XmlContext.find_types', 1) == qname")],
+        raises={}, returns="u:type|None", properties=["C14"],
     ))
